@@ -68,8 +68,17 @@ def _features(case: dict) -> list:
         feats.append("gene_spans_origin")
     if case["g"]["cs"] > 1:
         feats.append("codon_start_shifted")
-    starts = [p[0] for p in loc["parts"]]
-    if loc["strand"] == -1 and len(starts) > 1 and starts == sorted(starts):
+    # the parts that hold complete codons (the stretch before the first codon and a ragged last exon aside)
+    skip, coding, starts = case["g"]["cs"] - 1, total - total % 3, []
+    for part in loc["parts"]:
+        size = part[1] - part[0]
+        used = max(0, min(size - skip, coding))
+        skip = max(0, skip - size)
+        if used > 0:
+            starts.append(part[0])
+            coding -= used
+    listed = [p[0] for p in loc["parts"]]
+    if loc["strand"] == -1 and ((len(listed) > 1 and listed == sorted(listed)) or (len(starts) > 1 and starts == sorted(starts))):
         feats.append("reverse_parts_ascending")
     if total % 3:
         feats.append("ragged_tail")
@@ -218,6 +227,24 @@ def _observe(case: dict) -> dict:
                 return out
             entry["pre"] = P.result(prepeptide, _DUMMY_PRE)
 
+            def prepeptide_read_back():
+                # the same prepeptide after it was written out and read in again (GenBank output, reused results):
+                # rebuilt from its core feature, its sections placed once more
+                pre = Prepeptide(cds.location, "lanthipeptide", whole[start:end], name, "c09",
+                                 leader=whole[:start], tail=whole[end:])
+                written = {feat.qualifiers["prepeptide"][0]: feat for feat in pre.to_biopython()}
+                again = Prepeptide.from_biopython(written["core"])
+                found = {feat.qualifiers["prepeptide"][0]: feat for feat in again.to_biopython()}
+                out = {"hl": "leader" in found, "ht": "tail" in found, "core": P.loc(found["core"].location),
+                       "leader": P.loc(found["leader"].location) if "leader" in found else P.DUMMY_LOC,
+                       "tail": P.loc(found["tail"].location) if "tail" in found else P.DUMMY_LOC}
+                out["tr"] = (reads(found["core"].location, again.core)
+                             and ("leader" not in found or reads(found["leader"].location, again.leader))
+                             and ("tail" not in found or reads(found["tail"].location, again.tail))
+                             and (again.core, again.leader, again.tail) == (pre.core, pre.leader, pre.tail))
+                return out
+            entry["pre2"] = P.result(prepeptide_read_back, _DUMMY_PRE)
+
             def hmmer_hit():
                 hits = hmmer.build_hits(record, [_QueryResult(_Hsp(name, start, end))], 0., 1., FAKE_DB)
                 location = L.location_from_string(hits[0].location)
@@ -236,6 +263,7 @@ def _observe(case: dict) -> dict:
             entry["mot"] = P.result(motif, _DUMMY_LT)
         else:
             entry["pre"] = _skipped(_DUMMY_PRE)
+            entry["pre2"] = _skipped(_DUMMY_PRE)
             entry["hm"] = entry["dom"] = entry["mot"] = _skipped(_DUMMY_LT)
         if case["tta"] and entry["codon"]:
             entry["tta"] = P.result(lambda: TTAResults("c09rec", 0.7, 0.5).new_feature_from_other(cds, 3 * start).location,
